@@ -9,7 +9,8 @@ Record case := mkCase {
   ninst : nat;                 (* instances observed on the receiving server *)
   events : list oevent;        (* in the order of the global stamp counter *)
   must_complete : list nat;    (* instances whose every accepted message must have run at the end *)
-  blocked : option nat }.      (* instance whose handler blocks until the ORelease marker *)
+  blocked : option nat;        (* instance whose handler blocks until the ORelease marker *)
+  sent : list nat }.           (* per instance: messages sent to it before the ORelease marker *)
 
 (* the model accepts the trace: some run of the transition system has exactly
    these visible events *)
@@ -91,7 +92,9 @@ Definition check (c : case) : list nat :=
       let pre := before_release evs in
       clause 4 (has_release evs &&
                 forallb (fun i => (i =? b) ||
-                                  eql (msgs_of i OEnd pre) (msgs_of i OAccept pre)) insts)
+                                  (eql (msgs_of i OEnd pre) (msgs_of i OAccept pre) &&
+                                   (* ... and it got every message sent to it meanwhile *)
+                                   (length (msgs_of i OEnd pre) =? nth i (sent c) 0))) insts)
   end.
 
 Definition violations (l : list case) : list (nat * nat) := viols check l.
